@@ -21,18 +21,9 @@ def run(eng, R):
     R.rule("F1", "arguments along ContoursProfiler -> NexusFitter -> adapter -> profile helpers reach the parameter of the same name", 20)
 
     CL = p.find_class("ConfidenceLevel")
-    check(eng, R, "H-cl", "ConfidenceLevel", "_calc_cl_from_sigma", "assign", "1.0 - gammaincc(self.ndim / 2.0, self.sigma ** 2 / 2.0)", target="self._cl",
-          what="cl must be the chi2 CDF with ndim degrees of freedom at sigma^2")
-    check(eng, R, "H-cl", "ConfidenceLevel", "_calc_sigma_from_cl", "assign", "sqrt(2 * gammainccinv(self.ndim / 2.0, 1.0 - self.cl))", target="self._sigma",
-          what="sigma must be the square root of the chi2 quantile")
     check(eng, R, "H-cl", "ConfidenceLevel", "delta_nll", "return", "self.sigma ** 2", what="the cost rise of an s-sigma interval is s^2")
 
-    # ---- inverse pair: compose the *extracted* expressions
-    f_cl = get_func(p, "ConfidenceLevel", "_calc_cl_from_sigma")
-    f_sg = get_func(p, "ConfidenceLevel", "_calc_sigma_from_cl")
-    (c1, e_cl, env1), = assigned_exprs(f_cl.node, "self._cl")
-    (c2, e_sg, env2), = assigned_exprs(f_sg.node, "self._sigma")
-    e_cl, e_sg = subst(e_cl, env1), subst(e_sg, env2)
+    import copy
 
     class Repl(ast.NodeTransformer):
         def __init__(self, attr, new):
@@ -40,28 +31,95 @@ def run(eng, R):
 
         def visit_Attribute(self, node):
             if is_self(node.value) and node.attr == self.attr:
-                return self.new
+                return copy.deepcopy(self.new)
             return self.generic_visit(node)
 
-    import copy
+    KNOWN_FUNCS = {"()gammaincc", "()gammainccinv", "()gammainc", "()gammaincinv", "()chdtr", "()chdtrc", "()chdtri", "()erf", "()erfc", "()erfinv", "()erfcinv", "()expm1", "()log1p",
+                   "()exp", "()log", "()sqrt", "self.ndim", "self.sigma", "self.cl", "self._sigma", "self._cl", "self.n_dimensions", "self._ndim"}
 
-    s_of_c = Repl("cl", copy.deepcopy(e_cl)).visit(copy.deepcopy(e_sg))
-    c_of_s = Repl("sigma", copy.deepcopy(e_sg)).visit(copy.deepcopy(e_cl))
-    n1 = Normalizer().norm(s_of_c).canon()
-    n2 = Normalizer().norm(c_of_s).canon()
-    R.ob("H-inv", "sigma(cl(s)) = s", n1 == "self.sigma", (f_sg.file, f_sg.lineno), "sigma_from_cl(cl_from_sigma(s)) normalises to `%s`, not to s: the conversions are not inverse to each other" % n1[:200])
-    R.ob("H-inv", "cl(sigma(c)) = c", n2 == "self.cl", (f_cl.file, f_cl.lineno), "cl_from_sigma(sigma_from_cl(c)) normalises to `%s`, not to c: the conversions are not inverse to each other" % n2[:200])
+    def dim_branches(fname, target):
+        """[(dimension or None for 'any other', excluded dimensions, closed expression, line)] - branches on `self.ndim == k` are understood"""
+        f = get_func(p, "ConfidenceLevel", fname)
+        out = []
+        for conds, e, env in assigned_exprs(f.node, target):
+            n, excl = None, []
+            for t, pol in conds:
+                if isinstance(t, ast.Compare) and len(t.ops) == 1 and isinstance(t.ops[0], ast.Eq) and isinstance(t.comparators[0], ast.Constant) and is_self(getattr(t.left, "value", None)) \
+                        and t.left.attr in ("ndim", "_ndim", "n_dimensions"):
+                    if pol:
+                        n = t.comparators[0].value
+                    else:
+                        excl.append(t.comparators[0].value)
+                else:
+                    raise AnalysisError("ConfidenceLevel.%s: branch condition `%s` not understood" % (fname, ast.unparse(t)))
+            out.append((n, excl, subst(e, env), e.lineno))
+        if not out:
+            raise AnalysisError("ConfidenceLevel.%s: no assignment to %s" % (fname, target))
+        return f, out
+
+    def for_dim(expr, n):
+        return Repl("ndim", ast.Constant(value=n)).visit(copy.deepcopy(expr)) if n is not None else copy.deepcopy(expr)
+
+    SPEC_CL = ast.parse("1.0 - gammaincc(self.ndim / 2.0, self.sigma ** 2 / 2.0)", mode="eval").body
+    SPEC_SG = ast.parse("sqrt(2 * gammainccinv(self.ndim / 2.0, 1.0 - self.cl))", mode="eval").body
+    f_cl, br_cl = dim_branches("_calc_cl_from_sigma", "self._cl")
+    f_sg, br_sg = dim_branches("_calc_sigma_from_cl", "self._sigma")
+    for which, f, brs, spec, what in (("cl", f_cl, br_cl, SPEC_CL, "cl must be the chi2 CDF with ndim degrees of freedom at sigma^2"),
+                                      ("sigma", f_sg, br_sg, SPEC_SG, "sigma must be the square root of the chi2 quantile with ndim degrees of freedom at cl")):
+        covered_general = any(n is None for n, _, _, _ in brs)
+        R.ob("H-cl", "ConfidenceLevel.%s:all dimensions" % f.name, covered_general, (f.file, f.lineno), "%s has no branch for a general number of dimensions" % f.name)
+        for n, excl, e, line in brs:
+            got = Normalizer().norm(for_dim(e, n)).simplify().canon()
+            want = Normalizer().norm(for_dim(spec, n)).simplify().canon()
+            extra = leaves(e) - KNOWN_FUNCS
+            extra = {x for x in extra if not x.startswith("()SUM")}
+            if got != want and extra:
+                raise AnalysisError("formula rule H-cl at %s: the code uses %s, which this rule cannot read" % (f.qualname, sorted(extra)))
+            R.ob("H-cl", "ConfidenceLevel.%s:%s" % (f.name, "n=%s" % n if n is not None else "general n"), got == want, (f.file, line),
+                 "%s [%s]: %s - code: %s   expected: %s" % (f.qualname, "ndim == %s" % n if n is not None else "any other ndim", what, got[:160], want[:160]))
+
+    # ---- inverse pair: compose the *extracted* expressions, branch by branch
+    def branch_for(brs, n):
+        for k, excl, e, _ in brs:
+            if k == n:
+                return e
+        for k, excl, e, _ in brs:
+            if k is None and n not in excl:
+                return e
+        for k, excl, e, _ in brs:
+            if k is None:
+                return e
+        raise AnalysisError("ConfidenceLevel: no conversion branch for ndim=%s" % n)
+
+    dims = sorted({n for n, _, _, _ in br_cl + br_sg if n is not None}) + [None]
+    for n in dims:
+        e_cl, e_sg = for_dim(branch_for(br_cl, n), n), for_dim(branch_for(br_sg, n), n)
+        s_of_c = Repl("cl", e_cl).visit(copy.deepcopy(e_sg))
+        c_of_s = Repl("sigma", e_sg).visit(copy.deepcopy(e_cl))
+        n1 = Normalizer().norm(s_of_c).simplify().canon()
+        n2 = Normalizer().norm(c_of_s).simplify().canon()
+        tag = "" if n is None else " [n=%s]" % n
+        R.ob("H-inv", "sigma(cl(s)) = s%s" % tag, n1 in ("self.sigma", "(self.sigma^2)^1/2"), (f_sg.file, f_sg.lineno),
+             "sigma_from_cl(cl_from_sigma(s))%s normalises to `%s`, not to s: the conversions are not inverse to each other" % (tag, n1[:200]))
+        R.ob("H-inv", "cl(sigma(c)) = c%s" % tag, n2 == "self.cl", (f_cl.file, f_cl.lineno), "cl_from_sigma(sigma_from_cl(c))%s normalises to `%s`, not to c: the conversions are not inverse to each other" % (tag, n2[:200]))
 
     # ---- 2-d instance used for iminuit contours
     im = get_func(p, "MinimizerIMinuit", "contour")
     forms = assigned_exprs(im.node, "_cl")
     if not forms:
         raise AnalysisError("MinimizerIMinuit.contour: contour confidence level `_cl` not found")
-    two = Repl("ndim", ast.Constant(value=2)).visit(copy.deepcopy(e_cl))
-    two = Repl("sigma", ast.Name(id="sigma", ctx=ast.Load())).visit(two)
-    want = Normalizer().norm(two)
+    two = Repl("sigma", ast.Name(id="sigma", ctx=ast.Load())).visit(for_dim(branch_for(br_cl, 2), 2))
+    want = Normalizer().norm(two).simplify()
     for conds, e, env in forms:
-        got = Normalizer(env).norm(e)
+        ee = subst(e, env)
+        # going through the class is the same thing: ConfidenceLevel(n_dimensions=2, sigma=sigma).cl
+        if isinstance(ee, ast.Attribute) and ee.attr == "cl" and isinstance(ee.value, ast.Call) and isinstance(ee.value.func, ast.Name) and ee.value.func.id == "ConfidenceLevel":
+            kws = {k.arg: k.value for k in ee.value.keywords}
+            nd = kws.get("n_dimensions", ee.value.args[0] if ee.value.args else None)
+            okc = isinstance(nd, ast.Constant) and nd.value == 2 and "sigma" in kws and ast.unparse(kws["sigma"]) == "sigma"
+            R.ob("H-2d", "MinimizerIMinuit.contour:_cl", okc, (im.file, e.lineno), "the contour confidence level must be the two-dimensional level of `sigma` (found %s)" % ast.unparse(ee))
+            continue
+        got = Normalizer().norm(ee).simplify()
         R.ob("H-2d", "MinimizerIMinuit.contour:_cl", got == want, (im.file, e.lineno),
              "the contour confidence level is `%s`; the two-dimensional conversion gives `%s`" % (got.canon(), want.canon()))
     # the cl is what is handed to the backend
